@@ -21,7 +21,7 @@ SPEC = {
         "C15_fanchor_merge_assoc", "C15_anchor_conversions", "C15_cut_midpoint", "C15_cut_area_conserved",
         "C15_cut_area_conserved_inner", "C15_swap_area_partial",
         # one proved negation per listed finding (DESIGN §6.3)
-        "C15_D9_witness", "C15_D15a_witness", "C15_D15b_witness", "C15_D15c_witness", "C15_D15d_witness", "C15_D15e_witness",
+        "C15_D9_witness", "C15_D15a_witness", "C15_D15b_witness", "C15_D15c_witness", "C15_D15d_witness", "C15_D15e_witness", "C15_D15g_witness",
     ],
     "trusted_base": [
         "Lean 4.33 kernel; axioms propext, Classical.choice, Quot.sound only",
@@ -77,9 +77,17 @@ SPEC = {
         "local topology after swap / cut for arbitrary surrounding maps (symbolic execution of the straight-line sequences): validated by "
         "the oracle on every case, not a theorem; witnessed by `decide` on the unit square only",
         "swap: coordinates/area — FALSE today (D9): C15_D9_witness is the negation on unit_triangles(1); C15_swap_area_partial states what "
-        "does hold (the region's area is conserved by the specified retriangulation when no coordinate moves)",
-        "remove_free_dart_transac is only reached on free darts: taken as the hypothesis-free part of `Safe` (flagging a dart whose "
-        "images are already null); that the preceding unsews made them free is validated by the wf oracle, not proved",
+        "does hold (the specified retriangulation conserves the region's area when no coordinate moves)",
+        "collapse, well-formedness: C15_collapse_preserves_WF is proved for the kernel whose sew sites carry a non-null assertion "
+        "(collapseEdgeA; C15_collapseA_refines: when it succeeds collapse_edge returns the same value and map) and up to the hypothesis "
+        "`every newly flagged dart is free in the result`; that a successful collapse_edge never sews a null dart and only flags free darts "
+        "needs the symbolic execution with frame conditions on ~12 named darts — oracle only (`wf` after every call)",
+        "collapse: target position — FALSE today for boundary end points (D15d, C15_D15d_witness); triangle-mesh result — FALSE today for "
+        "corner triangles collapsed towards an end point (D15e, C15_D15e_witness); one vertex left — FALSE for interior edges between two "
+        "boundary vertices (D15f, replayed by the check, no `decide` witness)",
+        "anchors after cut / collapse (kept or lawfully merged): oracle only; FALSE today in the cases D15a, D15b (witnesses by `decide`)",
+        "WF theorems (a) assume the faces at the edge are closed at the edge darts (beta0, beta1 non-null) and, for the cuts, free in-use "
+        "spare darts: on an open face cut_outer_edge / cut_inner_edge 1-sew the null dart (beta0(null) is written) — outside `triangle mesh`",
     ],
 }
 
@@ -475,6 +483,57 @@ TWO_ANCH = ["wanchor v 1 N1", "wanchor v 2 N2", "wanchor v 3 C3", "wanchor v 6 C
             "wanchor f 10 S4"]
 
 
+# found by the thorough history stream (seed 20260926, case h779), greedily shortened: an interior edge between two boundary
+# vertices whose adjacent triangles have no boundary side
+D15F_HISTORY = ["grid 2 1 0 ncl 0 0 1 2 1 1", "wv 1 -1/8 -1/16", "wv 2 1 3/16", "wv 3 -1/8 13/16", "wv 6 7/8 15/16", "wv 9 1/16 2",
+                "wv 12 17/16 31/16", "add 3", "cutout 1 14 13 15", "add 6", "cutin 2 16 17 18 19 20 21", "swap 16", "add 3",
+                "cutout 11 22 23 24", "swap 16", "add 3", "cutout 12 25 26 27", "swap 18", "swap 21", "add 6",
+                "cutin 4 28 29 30 31 32 33", "add 3", "cutout 27 34 35 36", "add 6", "cutin 23 37 38 39 40 41 42", "swap 4", "swap 6"]
+
+
+D15G_PRE = ['grid 2 1 224 ncl 0 0 2 2 1 1',
+            'wv 2 7/8 0',
+            'wv 3 0 13/16',
+            'wv 6 15/16 15/16',
+            'wv 18 19/16 2',
+            'wanchor v 1 N1',
+            'wanchor v 2 C0',
+            'wanchor v 3 C3',
+            'wanchor v 6 S0',
+            'wanchor v 8 N8',
+            'wanchor v 12 C1',
+            'wanchor v 15 N15',
+            'wanchor v 18 C2',
+            'wanchor v 24 N24',
+            'wanchor e 1 C0',
+            'wanchor e 2 S0',
+            'wanchor e 3 C3',
+            'wanchor e 5 S0',
+            'wanchor e 6 S0',
+            'wanchor e 7 C0',
+            'wanchor e 8 S0',
+            'wanchor e 11 C1',
+            'wanchor e 12 S0',
+            'wanchor e 14 S0',
+            'wanchor e 15 C3',
+            'wanchor e 17 S0',
+            'wanchor e 18 C2',
+            'wanchor e 20 S0',
+            'wanchor e 23 C1',
+            'wanchor e 24 C2',
+            'wanchor f 1 S0',
+            'wanchor f 4 S0',
+            'wanchor f 7 S0',
+            'wanchor f 10 S0',
+            'wanchor f 13 S0',
+            'wanchor f 16 S0',
+            'wanchor f 19 S0',
+            'wanchor f 22 S0',
+            'add 3',
+            'cutout 7 25 26 27',
+            'wanchor e 27 C7']
+
+
 def directed():
     """the D9 witness of DESIGN §8 and the other listed findings on their smallest meshes"""
     w = ["snap", None, "snap", "wf"]
@@ -489,6 +548,8 @@ def directed():
         mk("d15c-unit-square", unit + ["add 3"], "cutout 1 9 8 7", "D15c"),
         mk("d15d-2x2-cut", ["grid 2 1 0 ncl 0 0 2 2 1 1", "add 6", "cutin 5 25 26 27 28 29 30"], "collapse 26", "D15d"),
         mk("d15e-unit-square", unit_a, "collapse 5", "D15e"),
+        mk("d15f-pinch", D15F_HISTORY, "collapse 8", "D15f"),
+        mk("d15g-flat", D15G_PRE, "collapse 5", "D15g"),
     ]
 
 
@@ -518,9 +579,9 @@ def run(tier, seed):
     res.setdefault("notes", []).extend(SPEC["notes"])
     if remesh.DEGENERATE[0]:
         res.setdefault("notes", []).append(
-            f"{remesh.DEGENERATE[0]} successful collapses (all in histories, on meshes whose vertices were moved by D9) left a zero-area "
-            "triangle at the new vertex: is_orbit_orientation_consistent compares signum()s and f64::signum(+0.0) = 1; counted as "
-            "outside general position, not as a violation")
+            f"{remesh.DEGENERATE[0]} successful collapses on inputs that already had a flat or inverted triangle at an end point (vertices "
+            "moved by D9 earlier in the history) left a zero-area triangle at the new vertex: outside the guard, not judged (the same "
+            "outcome on strictly oriented inputs is finding D15g)")
     if NOTES:
         res.setdefault("notes", []).append(
             "calls inside the guard answered `retry` (not successes; map unchanged; in atomically_with_err they would wait forever): "
